@@ -17,8 +17,8 @@ DRV_LAYOUTS = ['recursive']
 BUILDS = {'quick': [('k160', 'stone5', 'full', 'all_layouts', 'parser')], 'thorough': [('k160', 'stone5', 'full', 'all_layouts', 'parser')]}
 EXTREME = [0, 1, 2, 48, 49, 1 << 16, 1 << 20, 1 << 32, 1 << 40, (1 << 64) - 1, 1 << 64, 1 << 128, P - 2, P - 1]
 RULE = ('bases: fixture + shipped recursive proof (thorough: + 5 other static layouts and the dynamic proof). every numeric field of the config '
-        'and public input (and the nonce) set to each of {0,1,2,48,49,2^16,2^20,2^32,2^40,2^64-1,2^64,2^128,P-2,P-1}, alone and together with a '
-        'consistent re-declaration of the dependent fields (n_queries with security, blow-up with heights, trace size with FRI, layer count '
+        'and public input (and the nonce) set to each of {0,1,2,48,49,2^16,2^20,2^32,2^40,2^64-1,2^64,2^128,P-2,P-1}, alone, as an alias cur+k*2^w (w=32,64,128) of the honest value, and together with a '
+        'consistent re-declaration of the dependent fields (n_queries with security incl. k*2^w+q, blow-up with heights, trace size with FRI, layer count '
         'with vectors, dynamic parameters). each case: model agreement + isolated child process of the real verifier (wall limit 20 s per '
         'chunk of 25, address space 6 GiB); bound: time <= 40 x honest + 1 s, peak RSS <= honest + 512 MiB. non-trivial = all mutants.')
 ASSUMPTIONS = ['wall time and RSS are measured on this machine in a child process; they are a test of the runtime behaviour the model cannot exhibit']
@@ -69,8 +69,14 @@ def cases(rng, tier, feats, drv_ok):
             for x in (EXTREME if tier == 'thorough' or not path else [rng.choice(EXTREME) for _ in range(2)]):
                 if x < PL.limit(i) and x != PL.get(b.v[i], path):
                     out.append({'line': b.line(PL.setp(b.v, i, path, x)), 'kind': 'numeric', 'name': b.name, 'pos': f'{PL.TOK[i]}{list(path)}={hex(x)}'})
+            # aliases of the honest value modulo a machine word: they pass every check a truncating conversion would make
+            cur = PL.get(b.v[i], path)
+            for w in ((32, 64, 128) if tier == 'thorough' or not path else (rng.choice((32, 64, 128)),)):
+                x = cur + (1 << w) * (1 + rng.below(3))
+                if x < PL.limit(i):
+                    out.append({'line': b.line(PL.setp(b.v, i, path, x)), 'kind': 'alias', 'name': b.name, 'pos': f'{PL.TOK[i]}{list(path)}=cur+k*2^{w}'})
         # consistent re-declarations: the extreme value is made to pass the checks that precede the loop it drives
-        for nq in [48, 49, 1 << 16, 1 << 40, P - 1]:
+        for nq in [48, 49, 1 << 16, 1 << 40, P - 1] + [(k << w) + q for w in (32, 64, 128) for k in (1, 3) for q in (1, 10, 48)]:
             out.append({'line': b.line(PL.setp(b.v, I['cfg.n_queries'], (), nq), sec=0), 'kind': 'redeclared:n_queries', 'name': b.name, 'pos': hex(nq)})
         for t in [1, 20, 40, 60, 71]:
             for c in [1, 16]:
@@ -85,11 +91,17 @@ def cases(rng, tier, feats, drv_ok):
             out.append({'line': b.line(PL.setp(b.v, I['pi.log_n_steps'], (), lns)), 'kind': 'redeclared:log_n_steps', 'name': b.name, 'pos': hex(lns)})
         for last in [15, 16, 64, P - 1]:
             out.append({'line': b.line(PL.setp(b.v, I['cfg.fri.log_last_layer_degree_bound'], (), last)), 'kind': 'redeclared:last_layer', 'name': b.name, 'pos': hex(last)})
-    if HX:
-        iso = isolated([c['line'] for c in out])
-        for c, r in zip(out, iso + [('died', 'missing')] * (len(out) - len(iso))):
-            c['iso'] = r
     return out
+
+
+def prepare(cases):
+    """every case (corpus and replayed ones included) first runs in an isolated child process under the limits"""
+    if not HX: return
+    iso = isolated([c['line'] for c in cases])
+    for c, r in zip(cases, iso + [('died', 'missing')] * (len(cases) - len(iso))):
+        c['iso'] = r
+        if r[0] in ('timeout', 'died'):   # do not run it again in-process (it would hang / exhaust memory there too)
+            c['precomputed'] = f'panic ISOLATED-RUN-{r[0].upper()}'; c['hxonly'] = True
 
 
 def classify(c, co):
